@@ -101,6 +101,11 @@ pub struct Sub {
     /// (ingredient, key id) of a memo -> interned ids its last execution used
     pub int_reads: BTreeMap<(String, u64), Vec<u64>>,
     pub taint_spec_switch: bool,
+    /// keys of the specifiable function whose body has run at some point
+    pub sp_computed: BTreeSet<u64>,
+    /// a key whose value was computed earlier got a specified value in a later execution of its
+    /// creator (computed -> assigned switch)
+    pub taint_comp_to_spec: bool,
 }
 
 fn starts_revision(op: &Op) -> bool {
@@ -109,7 +114,7 @@ fn starts_revision(op: &Op) -> bool {
 
 impl Sub {
     pub fn new(_flags: &Flags, _prog: &Program) -> Sub {
-        Sub { lru: LruModel { cap: 2, ..Default::default() }, ident: Default::default(), intern: Default::default(), prog: _prog.clone(), node_keys: Vec::new(), sp_owner: BTreeMap::new(), sp_spec_state: BTreeMap::new(), taint_spec_switch: false, int_reads: BTreeMap::new() }
+        Sub { lru: LruModel { cap: 2, ..Default::default() }, ident: Default::default(), intern: Default::default(), prog: _prog.clone(), node_keys: Vec::new(), sp_owner: BTreeMap::new(), sp_spec_state: BTreeMap::new(), taint_spec_switch: false, sp_computed: BTreeSet::new(), taint_comp_to_spec: false, int_reads: BTreeMap::new() }
     }
 
     #[allow(clippy::too_many_arguments)]
@@ -276,10 +281,12 @@ impl Sub {
             match r {
                 Rec::Enter { f, key, .. } => {
                     if *f == F::Sp {
+                        self.sp_computed.insert(*key);
                         if self.sp_spec_state.get(key) == Some(&true) {
                             // the creator specified this key in an earlier revision and no longer
                             // does: the value switches from assigned to computed
                             self.taint_spec_switch = true;
+                            self.taint_comp_to_spec = false;
                             self.sp_spec_state.insert(*key, false);
                         }
                         if let Some((node, idx)) = self.sp_owner.get(key).copied() {
